@@ -509,6 +509,7 @@ func TestC10(t *testing.T) {
 						}
 						return n
 					}}).Stmts(stmts))
+					r.Eval()
 					r.Class("rename:mangled-spelling-of-another/" + id.role)
 					r.NonTrivial(renamed2, map[string]any{"mapping": mapping2, "renamed": renamed2})
 					c2 := renameCase{Kind: "rename-pair", Property: "C10", Base: base, Renamed: renamed2, Mapping: mapping2}
